@@ -34,7 +34,9 @@ var (
 		"'", "\"", "`", "x'", "x\"", "x`", "<a x=\"1\"", "<a x=`1`"}
 	xssTagForms = []string{"<T>", "<T x>", "<T/>", "<T/x=1>", "<T\tx", "<T", "<T\nx=1>", "<T\fx>", "<T\r>"}
 	xssValForms = []string{"=1", "=alert(1)", "='x'", "=\"x\"", "=`x`", " = 1", "\t=\n1", "=1>", "\f=\r'x'", "=x y"}
-	xssSchemes  = []string{"javascript:alert(1)", "vbscript:x", "data:text/html,x", "view-source:x", "JaVaScRiPt:x", "&#106;avascript:x", "&#x6A;avascript:x", "&#X76iew-source:x", " \tjavascript:x", "\x01javascript:x", "jav&#x0A;ascript:x", "java\x00script:x", "&#0000106avascript:x", "\x7fdata:x", "\xa0vbscript:x", "VIEW-SOURCE:x", "d&#97;ta:x", "&#9;javascript:x"}
+	xssSchemes  = []string{"javascript:alert(1)", "vbscript:x", "data:text/html,x", "view-source:x", "JaVaScRiPt:x", "&#106;avascript:x", "&#x6A;avascript:x", "&#X76iew-source:x", " \tjavascript:x", "\x01javascript:x", "jav&#x0A;ascript:x", "java\x00script:x", "&#0000106avascript:x", "\x7fdata:x", "\xa0vbscript:x", "VIEW-SOURCE:x", "d&#97;ta:x", "&#9;javascript:x",
+		// long runs of ignorable characters (decode-step / buffer bounds)
+		"j" + strings.Repeat("\x00", 40) + "avascript:x", strings.Repeat("&#9;", 40) + "javascript:x", "java" + strings.Repeat("&#10;", 70) + "script:x", "vb" + strings.Repeat("&#0;", 33) + "script:x", "d" + strings.Repeat("\x00", 29) + "ata:x"}
 	xssMarkup   = []string{"<!doctype html>", "<!DOCTYPE x", "<!DocType", "<!ENTITY x>", "<!entity", "<![if IE]>", "<!--[if gte IE 4]>", "<!--[IF x]>", "<?import x>", "<?IMPORT x", "<?xml version>", "<?XML x", "<?xml-stylesheet href=x?>", "<!--`-->", "<%`%>", "<!`>", "<?`",
 		"<?xml >", "<?XmL >", "<![if]>", "<![iF ]>", "<%xml %>", "<!--[if]-->", "<?import>", "<!ENTITY>", "<?xml x", "<![if x"}
 )
@@ -156,7 +158,7 @@ func obfuscateName(v xssVec, mode int) string {
 }
 
 func TestC04(t *testing.T) {
-	c := NewCheck(t, "C04", "cases are vectors of the XSS grammar built from the shipped lists: every black tag x 9 tag forms x 12 breakout prefixes; every black event / black or style attribute x 24 attribute positions (inside a tag, or continuing each of the four attribute contexts, separators space TAB LF FF CR '/') x 10 value forms; every URL-typed attribute x 24 positions x 18 scheme spellings (case, decimal/hex references with and without ';', leading zeros, leading control/high bytes, embedded NUL/LF) x 4 quotings; indirect attribute x black targets; DOCTYPE/ENTITY/IE-conditional/processing-instruction/back-tick markup x breakouts; each also with the name upper-cased, alternating-cased and with NULs inserted; rapid draws per-letter case and NUL positions beyond that; excluded by rule: name= at end of input; oracle: IsXSS true; every vector is non-trivial; duplicates removed by construction (random part by FNV-64)")
+	c := NewCheck(t, "C04", "cases are vectors of the XSS grammar built from the shipped lists: every black tag x 9 tag forms x 12 breakout prefixes; every black event / black or style attribute x 24 attribute positions (inside a tag, or continuing each of the four attribute contexts, separators space TAB LF FF CR '/') x 10 value forms; every URL-typed attribute x 24 positions x 23 scheme spellings (case, decimal/hex references with and without ';', leading zeros, leading control/high bytes, embedded NUL/LF) x 4 quotings; indirect attribute x black targets; DOCTYPE/ENTITY/IE-conditional/processing-instruction/back-tick markup x breakouts; each also with the name upper-cased, alternating-cased and with NULs inserted; rapid draws per-letter case and NUL positions beyond that; excluded by rule: name= at end of input; oracle: IsXSS true; every vector is non-trivial; duplicates removed by construction (random part by FNV-64)")
 	c.rec.Assume = []string{"the grammar is rule-defined (no calibration file); it was verified to be 100% detected on the repaired pinned tree"}
 	c.noMinimise = true
 	defer c.Finish()
